@@ -308,6 +308,9 @@ class Budget(RuleAnalysis):
             return (None, [fact]) if neg else ([fact], None)
         from .base import none_test
         nt = none_test(test)
+        if nt and state == "stale" and nt[0] in cov:
+            # `if elapsed is not None:` on a timer that has measured the blocking call of this very path: it was entered, so it is bound
+            return (None, [fact]) if nt[1] else ([fact], None)
         if nt and nt[0] == self.var:
             inf = ("inf", frozenset(), flags)  # None = no deadline: nothing to account for
             return ([inf], [fact]) if nt[1] else ([fact], [inf])
